@@ -40,7 +40,7 @@ theorem nilable_size_pos : ∀ (t : Ty), Nilable t.kind → t.size ≠ 0
       exact nilable_size_pos u h
   | .prim p, h => by cases p <;> simp [Nilable, Ty.kind, Prim.kind] at h
   | .arr _ _, h => by simp [Nilable, Ty.kind] at h
-  | .strct _, h => by simp [Nilable, Ty.kind] at h
+  | .strct _ _ _, h => by simp [Nilable, Ty.kind] at h
   | .slice _, _ => by simp [Ty.size]
   | .map _ _, _ => by simp [Ty.size]
   | .ptr _, _ => by simp [Ty.size]
@@ -54,7 +54,7 @@ theorem iface_not_direct : ∀ (t : Ty), t.kind = .iface → t.isDirect = false
       exact iface_not_direct u h
   | .prim p, h => by cases p <;> simp [Ty.kind, Prim.kind] at h
   | .arr _ _, h => by simp [Ty.kind] at h
-  | .strct _, h => by simp [Ty.kind] at h
+  | .strct _ _ _, h => by simp [Ty.kind] at h
   | .slice _, h => by simp [Ty.kind] at h
   | .map _ _, h => by simp [Ty.kind] at h
   | .ptr _, h => by simp [Ty.kind] at h
@@ -68,7 +68,7 @@ theorem zeroVal_iface : ∀ (t : Ty), t.kind = .iface → zeroVal t = .ifaceNil
       exact zeroVal_iface u h
   | .prim p, h => by cases p <;> simp [Ty.kind, Prim.kind] at h
   | .arr _ _, h => by simp [Ty.kind] at h
-  | .strct _, h => by simp [Ty.kind] at h
+  | .strct _ _ _, h => by simp [Ty.kind] at h
   | .slice _, h => by simp [Ty.kind] at h
   | .map _ _, h => by simp [Ty.kind] at h
   | .ptr _, h => by simp [Ty.kind] at h
@@ -84,7 +84,7 @@ theorem zeroVal_ptrlike : ∀ (t : Ty), (t.kind = .ptr ∨ t.kind = .slice ∨ t
       exact zeroVal_ptrlike u h
   | .prim p, h => by cases p <;> simp [Ty.kind, Prim.kind] at h
   | .arr _ _, h => by simp [Ty.kind] at h
-  | .strct _, h => by simp [Ty.kind] at h
+  | .strct _ _ _, h => by simp [Ty.kind] at h
   | .iface _, h => by simp [Ty.kind] at h
   | .slice _, _ => by simp [zeroVal]
   | .map _ _, _ => by simp [zeroVal]
@@ -101,7 +101,7 @@ theorem zeroVal_isZero : ∀ t : Ty, isZeroVal (zeroVal t) = true
       induction n with
       | zero => simp [Vals.repl, isZeroVals]
       | succ k ih => simp [Vals.repl, isZeroVals, h, ih]
-  | .strct fs => by simp only [zeroVal, isZeroVal]; exact zeroVals_isZero fs
+  | .strct _ _ fs => by simp only [zeroVal, isZeroVal]; exact zeroVals_isZero fs
   | .iface _ => by simp [zeroVal, isZeroVal]
   | .named _ _ _ u => by simp only [zeroVal]; exact zeroVal_isZero u
   | .slice _ => by simp [zeroVal, isZeroVal]
@@ -133,7 +133,7 @@ def erase : Ty → Ty
   | .ptr e => .ptr (erase e)
   | .chan d e => .chan d (erase e)
   | .func s => .func s
-  | .strct fs => .strct (erases fs)
+  | .strct _ _ fs => .strct [] [] (erases fs)
   | .iface ms => .iface ms
   | .named _ _ _ u => erase u
 def erases : Tys → Tys
@@ -150,7 +150,7 @@ theorem erase_kind : ∀ t : Ty, (erase t).kind = t.kind
   | .ptr _ => by simp [erase, Ty.kind]
   | .chan _ _ => by simp [erase, Ty.kind]
   | .func _ => by simp [erase]
-  | .strct _ => by simp [erase, Ty.kind]
+  | .strct _ _ _ => by simp [erase, Ty.kind]
   | .iface _ => by simp [erase]
   | .named _ _ _ u => by simp only [erase, Ty.kind]; exact erase_kind u
 end
@@ -164,7 +164,7 @@ theorem erase_align : ∀ t : Ty, (erase t).align = t.align
   | .ptr _ => by simp [erase, Ty.align]
   | .chan _ _ => by simp [erase, Ty.align]
   | .func _ => by simp [erase]
-  | .strct fs => by simp only [erase, Ty.align]; exact erases_maxAlign fs
+  | .strct _ _ fs => by simp only [erase, Ty.align]; exact erases_maxAlign fs
   | .iface _ => by simp [erase]
   | .named _ _ _ u => by simp only [erase, Ty.align]; exact erase_align u
 theorem erases_maxAlign : ∀ fs : Tys, (erases fs).maxAlign = fs.maxAlign
@@ -181,7 +181,7 @@ theorem erase_size : ∀ t : Ty, (erase t).size = t.size
   | .ptr _ => by simp [erase, Ty.size]
   | .chan _ _ => by simp [erase, Ty.size]
   | .func _ => by simp [erase]
-  | .strct fs => by simp only [erase, Ty.size, erases_maxAlign fs, erases_endOff fs]
+  | .strct _ _ fs => by simp only [erase, Ty.size, erases_maxAlign fs, erases_endOff fs]
   | .iface _ => by simp [erase]
   | .named _ _ _ u => by simp only [erase, Ty.size]; exact erase_size u
 theorem erases_endOff : ∀ (fs : Tys) (off : Nat), (erases fs).endOff off = fs.endOff off
@@ -202,7 +202,7 @@ theorem erase_isDirect : ∀ t : Ty, (erase t).isDirect = t.isDirect
   | .ptr _ => by simp [erase, Ty.isDirect]
   | .chan _ _ => by simp [erase, Ty.isDirect]
   | .func _ => by simp [erase]
-  | .strct fs => by simp only [erase, Ty.isDirect]; exact erases_isDirect1 fs
+  | .strct _ _ fs => by simp only [erase, Ty.isDirect]; exact erases_isDirect1 fs
   | .iface _ => by simp [erase]
   | .named _ _ _ u => by simp only [erase, Ty.isDirect]; exact erase_isDirect u
 theorem erases_isDirect1 : ∀ fs : Tys, (erases fs).isDirect1 = fs.isDirect1
@@ -242,6 +242,40 @@ theorem returnE2E_single (r : Boxed) (out : Ty) :
       deliver_single]
     cases hw : v.wellFlagged <;> simp
     cases deliver1 v out <;> simp
+
+/-- `deliver` position by position -/
+theorem deliver_pointwise : ∀ (vs : List RV) (outs : List Ty) (rs : List RV), deliver vs outs = some rs →
+    rs.length = outs.length ∧ vs.length = outs.length ∧
+    ∀ j, j < outs.length → ∃ v o a, vs[j]? = some v ∧ outs[j]? = some o ∧ rs[j]? = some a ∧ deliver1 v o = some a := by
+  intro vs
+  induction vs with
+  | nil =>
+    intro outs rs h
+    cases outs with
+    | nil => simp [deliver] at h; subst h; simp
+    | cons o os => simp [deliver] at h
+  | cons v vs ih =>
+    intro outs rs h
+    cases outs with
+    | nil => simp [deliver] at h
+    | cons o os =>
+      simp only [deliver] at h
+      cases h1 : deliver1 v o with
+      | none => simp [h1] at h
+      | some a =>
+        cases h2 : deliver vs os with
+        | none => simp [h1, h2] at h
+        | some r =>
+          simp [h1, h2] at h
+          subst h
+          obtain ⟨i1, i2, i3⟩ := ih os r h2
+          refine ⟨by simp [i1], by simp [i2], ?_⟩
+          intro j hj
+          cases j with
+          | zero => exact ⟨v, o, a, by simp, by simp, by simp, h1⟩
+          | succ k =>
+            obtain ⟨v', o', a', g1, g2, g3, g4⟩ := i3 k (by simp at hj; omega)
+            exact ⟨v', o', a', by simpa using g1, by simpa using g2, by simpa using g3, g4⟩
 
 /-! ## I2V over lists -/
 
